@@ -11,6 +11,7 @@ import Proofs.InterpEffects
 import Proofs.InterpBridge
 import Proofs.InterpUnroll
 import Proofs.InterpExamples
+import Proofs.InterpShape
 
 /-!
   C04 — Interpreted OAL computes what the action language defines.
@@ -693,5 +694,230 @@ example : ∃ st' ops, applyEffs (ctxOfA knameS declS [0, 1] schS) histE initSta
     (refinesA_init knameS declS atS schS (fun _ => ⟨"", 0⟩) ⟨fun _ _ => .none⟩) (Pyx.Meta.allInv_init schS)
     (closed_init [0, 1]) histE st' hes hid
   exact ⟨st', ops, hes, hdom, R'⟩
+
+end PyxProps.C04
+
+/-! ==========================================================================================================
+  SOURCE TIE OF THE HANDLERS' STATEMENT STRUCTURE (builder interp-shape) — appended section
+  translator/gen_interpshape.py re-reads, with `ast`, the bodies of `ActionWalker.accept_*` of bridgepoint/interpret.py into
+  Gen/InterpShape.lean: one statement list per handler over named calls (find / install symbol, accept child [.fget()],
+  domain.new / select_many / select_any, xtuml.relate / unrelate / delete, enter / leave block and scope, raise, try / except,
+  if node.<flag>, the Python loops, the where closures, the operand evaluation and `ops[operator](…)`).
+  Proofs/InterpShape.lean defines ONE generic interpreter of that IR over Spec's configurations (`Pyx.IShape.iCall / iStmt /
+  iStmts`, for any IR value; a `Node` says what accepting each child does).  The theorems below state that the clauses of `Spec`
+  ARE the interpretation of the IR generated from the current source — for every context, oracle (= every sub-result, every
+  amount of fuel), configuration — so swapping the two relate calls of accept_RelateUsingNode, relating another pair, dropping
+  leave_block in a where closure, testing another field than `node.many`, evaluating the right operand first, passing the
+  operands the other way round, catching ContinueException outside the loop, or re-ordering expression and target of an
+  assignment changes the IR and breaks these theorems before any test runs; a statement outside the translated fragment makes
+  the generator raise (broken tie).  What is NOT in these equations: the meaning of the atoms (find_symbol = lookupVar, relate =
+  State.relate, …: hand-modelled, digest-checked environment, validated by correspondence), accept_SelectRelated(Where)Node and
+  the SymbolTable methods (their IR is generated and compared, no equation is proved about it).
+  ========================================================================================================== -/
+namespace PyxProps.C04
+open Pyx.Interp Pyx.IShape Pyx.Gen.InterpShape
+
+/-- relate / unrelate (+ using): which variables are looked up, in which order, WHICH PAIRS are related and in which order
+    (using: first (from, using), then (using, to)), the phrase without its ticks.  Up to the text of a domain error (`noMsg`:
+    the source looks all variables up before it uses the first, `Spec` checks each handle as it is looked up; an error result
+    carries no configuration) -/
+theorem relate_unrelate_as_in_source (C : Ctx) (rec : Oracle) (a b rel ph u : String) (c : Cfg) :
+    noMsg (execStep C rec (.relate a b rel (stripTicks ph)) c) = noMsg (handlerS C (relNode a b rel ph "") accept_RelateNode c) ∧
+    noMsg (execStep C rec (.unrelate a b rel (stripTicks ph)) c) =
+      noMsg (handlerS C (relNode a b rel ph "") accept_UnrelateNode c) ∧
+    noMsg (execStep C rec (.relateUsing a b rel (stripTicks ph) u) c) =
+      noMsg (handlerS C (relNode a b rel ph u) accept_RelateUsingNode c) ∧
+    noMsg (execStep C rec (.unrelateUsing a b rel (stripTicks ph) u) c) =
+      noMsg (handlerS C (relNode a b rel ph u) accept_UnrelateUsingNode c) :=
+  ⟨relate_eq C rec a b rel ph c, unrelate_eq C rec a b rel ph c, relateUsing_eq C rec a b rel ph u c,
+   unrelateUsing_eq C rec a b rel ph u c⟩
+
+/-- select from instances (+ where): `node.many` dispatches select_many / select_any; the where closure enters a block,
+    installs `selected`, evaluates the clause, LEAVES the block and returns the clause's value; the result is installed under
+    the variable name -/
+theorem select_from_as_in_source (C : Ctx) (rec : Oracle) (many : Bool) (v cls : String) (wh : Expr) :
+    execStep C rec (.selectFrom many v cls none) = handlerS C (selectFromNode many v cls none) accept_SelectFromNode ∧
+    execStep C rec (.selectFrom many v cls (some wh)) =
+      handlerS C (selectFromNode many v cls (some (rec.eval wh))) accept_SelectFromWhereNode :=
+  ⟨selectFrom_eq C rec many v cls, selectFromWhere_eq C rec many v cls wh⟩
+
+/-- break / continue / control stop / return: the exception raised; `return e` evaluates, stores the value in the walker's
+    register, then raises; a bare `return` only raises -/
+theorem control_as_in_source (C : Ctx) (rec : Oracle) (e : Expr) :
+    execStep C rec .brk = handlerS C {} accept_BreakNode ∧
+    execStep C rec .cont = handlerS C {} accept_ContinueNode ∧
+    execStep C rec .stop = handlerS C {} accept_ControlNode ∧
+    execStep C rec (.ret none) = handlerS C (returnNode none) accept_ReturnNode ∧
+    execStep C rec (.ret (some e)) = handlerS C (returnNode (some (rec.eval e))) accept_ReturnNode :=
+  ⟨break_eq C rec, continue_eq C rec, stop_eq C rec, returnBare_eq C rec, return_eq C rec e⟩
+
+/-- statement list = the children in order, an exception ends it; block = enter_block, the list, leave_block — where the
+    source SKIPS leave_block when an exception passes and `Spec` pops the block (`unwindBlock`: the one documented place where
+    `Spec` states the language rule instead of the mechanism) -/
+theorem sequence_block_as_in_source (C : Ctx) (rec : Oracle) (b : Block) :
+    execList rec b = handlerS C { children := b.map (stmtChild rec) } accept_StatementListNode ∧
+    execBlock rec b = unwindBlock (handlerS C (blockNode rec b) accept_BlockNode) :=
+  ⟨execList_eq C rec b, execBlock_eq C rec b⟩
+
+/-- body and invocation: enter_scope, the block with ReturnException and StopException caught (and nothing else: a break or
+    continue that no loop caught leaves the walker), leave_scope; a callable runs in a new walker without any scope -/
+theorem body_as_in_source (C : Ctx) (rec : Oracle) (kind : WalkerKind) (body : Block) (kw : List (String × Val)) (self : Val) :
+    invoke rec kind body kw self = iInvoke C rec kind body kw self ∧
+    iRunBody C rec body = (do M.setEnv [[]]; runBody rec body; M.setEnv []) :=
+  ⟨invoke_eq C rec kind body kw self, iRunBody_eq C rec body⟩
+
+/-- while: the condition is re-evaluated before every round; ContinueException and BreakException are caught around the
+    block INSIDE the loop (continue: next round, break: leave the loop), every other exception passes; the next round is the
+    oracle's (Spec's fuel) -/
+theorem while_as_in_source (C : Ctx) (rec : Oracle) (c : Expr) (body : Block) :
+    execStep C rec (.whileS c body) = handlerS C (whileNode rec c body) accept_WhileNode :=
+  while_eq C rec c body
+
+/-- for each: the set variable is looked up once, the loop variable installed per element, the block run with
+    ContinueException / BreakException caught inside the loop -/
+theorem for_each_as_in_source (C : Ctx) (rec : Oracle) (v setv : String) (body : Block) :
+    execStep C rec (.forEach v setv body) = handlerS C (forEachNode rec v setv body) accept_ForEachNode :=
+  forEach_eq C rec v setv body
+
+/-- if / elif / else: the first true branch only; accept_ElIfListNode stops at the first child that returns True,
+    accept_ElIfNode returns True exactly when its condition held, the else clause runs iff no branch was taken -/
+theorem if_as_in_source (C : Ctx) (rec : Oracle) (c : Expr) (thn : Block) (elifs : List (Expr × Block)) (els : Option Block) :
+    execStep C rec (.ifS c thn elifs els) = handlerS C (ifNode C rec c thn elifs els) accept_IfNode ∧
+    (∀ cb, handlerT C (elifNode rec cb) accept_ElIfNode = elifSem rec cb) ∧
+    (do let x ← elifListSem C rec elifs
+        afterElifs rec els x) = execElifs rec elifs els :=
+  ⟨if_eq C rec c thn elifs els, elif_eq C rec, elifList_then C rec elifs els⟩
+
+/-- create (with / without variable) and delete -/
+theorem create_delete_as_in_source (C : Ctx) (rec : Oracle) (x cls : String) :
+    execStep C rec (.create (some x) cls) =
+      handlerS C (strNode [("key_letter", cls), ("variable_name", x)]) accept_CreateObjectNode ∧
+    execStep C rec (.create none cls) = handlerS C (strNode [("key_letter", cls)]) accept_CreateObjectNoVariableNode ∧
+    execStep C rec (.delete x) = handlerS C (strNode [("variable_name", x)]) accept_DeleteNode :=
+  ⟨create_eq C rec x cls, createNoVariable_eq C rec cls, delete_eq C rec x⟩
+
+/-- assignment: the expression is evaluated BEFORE the target (whose handle, for `h.attr = e`, is evaluated then), the value
+    goes through the target's setter -/
+theorem assignment_as_in_source (C : Ctx) (rec : Oracle) (x : String) (h : Expr) (name : String) (e : Expr) :
+    execStep C rec (.assignVar x e) = handlerS C (assignNode (rec.eval e) (pure (.var x))) accept_AssignmentNode ∧
+    execStep C rec (.assignField h name e) =
+      handlerS C (assignNode (rec.eval e) (fieldAccess rec h name)) accept_AssignmentNode :=
+  ⟨assignVar_eq C rec x e, assignField_eq C rec h name e⟩
+
+/-- operators: LEFT operand, then right, then `ops[operator](left_value, right_value)` (no short circuit: both operands are
+    always evaluated); unary alike; `selected` is the symbol 'selected' -/
+theorem operators_as_in_source (C : Ctx) (rec : Oracle) (bop : BinOp) (uop : UnOp) (l r : Expr) :
+    evalStep C rec (.bin bop l r) = handlerE C (binNode bop (rec.eval l) (rec.eval r)) accept_BinaryOperationNode ∧
+    evalStep C rec (.un uop l) = handlerE C (unNode uop (rec.eval l)) accept_UnaryOperationNode ∧
+    evalStep C rec .selected = handlerE C {} accept_SelectedAccessNode :=
+  ⟨binary_eq C rec bop l r, unary_eq C rec uop l, selected_eq C rec⟩
+
+/-! non-vacuity: the generic interpreter RUNS the generated IR on concrete configurations and produces the links, the selected
+    instance, the loop count and the value; and it is not a renaming of `Spec` — on statement structures OTHER than the
+    generated ones (the mutations named above) it computes other results, so the equalities above are not equalities that any
+    IR would satisfy -/
+
+/-- a reflexive association: the pair list shows the ORDER of the relates -/
+def CK : Ctx :=
+  { classes := [⟨"K", []⟩],
+    assocs := [{ rel := "R1", src := "K", tgt := "K", srcPhrase := "", tgtPhrase := "", srcMany := true, tgtMany := true }] }
+def stK : State :=
+  { live := fun c => if c = "K" then [0, 1, 2] else [], next := fun c => if c = "K" then 3 else 0,
+    attr := fun i _ => .int i.idx, links := fun _ => [], nextId := 1 }
+def cfgK : Cfg :=
+  { fr := { mkFrame .function [] .none with
+            env := [[("a", .inst ⟨"K", 0⟩), ("b", .inst ⟨"K", 1⟩), ("l", .inst ⟨"K", 2⟩), ("n", .int 0)]] }, st := stK }
+def linksAfter (r : Res Out) : Option (List (Nat × Nat)) :=
+  match r with | some (.ok (_, c)) => some ((c.st.links 0).map (fun p => (p.1.idx, p.2.idx))) | _ => none
+def varAfter {α : Type} (r : Res α) (x : String) : Option Val :=
+  match r with | some (.ok (_, c)) => envLookup c.fr.env x | _ => none
+def depthAfter {α : Type} (r : Res α) : Option Nat :=
+  match r with | some (.ok (_, c)) => some c.fr.env.length | _ => none
+def errAfter {α : Type} (r : Res α) : Option String :=
+  match r with | some (.error e) => some e.msg | _ => none
+
+/-- `relate a to b across R1 using l`: (a, l) first, then (l, b) — as the theorem's two sides; the two calls swapped, or the
+    pair (from, to) related, give another store -/
+example : linksAfter (handlerS CK (relNode "a" "b" "R1" "''" "l") accept_RelateUsingNode cfgK) = some [(2, 0), (1, 2)] ∧
+    linksAfter (execStep CK (run CK 0) (.relateUsing "a" "b" "R1" (stripTicks "''") "l") cfgK) = some [(2, 0), (1, 2)] ∧
+    linksAfter (handlerS CK (relNode "a" "b" "R1" "" "l")
+      [.assign "from_inst" (.findSymbol (.field "from_variable_name")), .assign "to_inst" (.findSymbol (.field "to_variable_name")),
+       .assign "using_inst" (.findSymbol (.field "using_variable_name")),
+       .expr (.relate "using_inst" "to_inst" (.field "rel_id") (.fieldNoTicks "phrase")),
+       .expr (.relate "from_inst" "using_inst" (.field "rel_id") (.fieldNoTicks "phrase"))] cfgK) = some [(1, 2), (2, 0)] ∧
+    linksAfter (handlerS CK (relNode "a" "b" "R1" "" "l")
+      [.assign "from_inst" (.findSymbol (.field "from_variable_name")), .assign "to_inst" (.findSymbol (.field "to_variable_name")),
+       .assign "using_inst" (.findSymbol (.field "using_variable_name")),
+       .expr (.relate "from_inst" "to_inst" (.field "rel_id") (.fieldNoTicks "phrase")),
+       .expr (.relate "using_inst" "to_inst" (.field "rel_id") (.fieldNoTicks "phrase"))] cfgK) = some [(1, 0), (1, 2)] := by
+  decide +kernel
+
+/-- `select any x from instances of K where (selected == b)`: the generated closure finds the second instance and leaves the
+    scope as deep as it was; without `leave_block` every candidate tested leaves a block behind; testing `node.cardinality`
+    (a field that is not the flag `many`) selects one instance where the program asked for many -/
+def whSel : M Val := do
+  let s ← lookupVar CK "selected"
+  let b ← lookupVar CK "b"
+  M.liftE (binop .eq s b)
+example : varAfter (handlerS CK (selectFromNode false "x" "K" (some whSel)) accept_SelectFromWhereNode cfgK) "x" = some (.inst ⟨"K", 1⟩) ∧
+    depthAfter (handlerS CK (selectFromNode false "x" "K" (some whSel)) accept_SelectFromWhereNode cfgK) = some 1 ∧
+    depthAfter (handlerS CK (selectFromNode false "x" "K" (some whSel))
+      [.defClosure "where" "selected" [.expr .enterBlock, .expr (.installSymbol (.lit "selected") "selected"),
+         .assign "value" (.accept "where_clause"), .ret (.fget "value")],
+       .ifNode "many" [.assign "handle" (.selectMany (.field "key_letter") (some "where"))]
+         [.assign "handle" (.selectAny (.field "key_letter") (some "where"))],
+       .expr (.installSymbol (.field "variable_name") "handle")] cfgK) = some 3 ∧
+    varAfter (handlerS CK (selectFromNode true "x" "K" none) accept_SelectFromNode cfgK) "x" =
+      some (.set [⟨"K", 0⟩, ⟨"K", 1⟩, ⟨"K", 2⟩]) ∧
+    varAfter (handlerS CK (selectFromNode true "x" "K" none)
+      [.ifNode "cardinality" [.assign "handle" (.selectMany (.field "key_letter") none)]
+         [.assign "handle" (.selectAny (.field "key_letter") none)],
+       .expr (.installSymbol (.field "variable_name") "handle")] cfgK) "x" = some (.inst ⟨"K", 0⟩) := by
+  decide +kernel
+
+/-- a loop body that counts and then continues: `for each` over three instances runs it three times; with ContinueException
+    caught OUTSIDE the loop the first `continue` ends the loop -/
+def countAndContinue : M (Out × Bool) := do
+  let n ← lookupVar CK "n"
+  let m ← M.liftE (binop .add n (.int 1))
+  install "n" m
+  pure (.cont, false)
+def forNode : Node :=
+  { str := fun f => ([("instance_variable_name", "k"), ("set_variable_name", "ks")].lookup f).getD ""
+    acceptS := stmtChildAt "block" countAndContinue }
+def cfgKs : Cfg := { cfgK with fr := { cfgK.fr with env := [[("ks", .set [⟨"K", 0⟩, ⟨"K", 1⟩, ⟨"K", 2⟩]), ("n", .int 0)]] } }
+example : varAfter (handlerS CK forNode accept_ForEachNode cfgKs) "n" = some (.int 3) ∧
+    varAfter (handlerS CK forNode
+      [.assign "set_handle" (.findSymbol (.field "set_variable_name")),
+       .tryExcept [.forIn "handle" "set_handle" [.expr (.installSymbol (.field "instance_variable_name") "handle"),
+                                                  .expr (.accept "block")]]
+         [(.continueExc, [.pass]), (.breakExc, [.pass])]] cfgKs) "n" = some (.int 1) := by
+  decide +kernel
+
+/-- operators: the LEFT operand is evaluated first (of two failing operands the left one's error is reported) and is the
+    FIRST argument (5 - 3 = 2); right-first evaluation, or the arguments the other way round, are visible -/
+example : errAfter (handlerE CK (binNode .sub (M.fail "left") (M.fail "right")) accept_BinaryOperationNode cfgK) = some "left" ∧
+    errAfter (handlerE CK (binNode .sub (M.fail "left") (M.fail "right"))
+      [.assign "ops" (.opsTable "binary"), .assign "operator" (.lowerField "operator"),
+       .assign "right_value" (.acceptFget "right"), .assign "left_value" (.acceptFget "left"),
+       .assign "value" (.applyOp "ops" "operator" ["left_value", "right_value"]), .ret (.property "value")] cfgK) = some "right" ∧
+    (match handlerE CK (binNode .sub (pure (.int 5)) (pure (.int 3))) accept_BinaryOperationNode cfgK with
+      | some (.ok (v, _)) => some v | _ => none) = some (.int 2) ∧
+    (match handlerE CK (binNode .sub (pure (.int 5)) (pure (.int 3)))
+      [.assign "ops" (.opsTable "binary"), .assign "operator" (.lowerField "operator"),
+       .assign "left_value" (.acceptFget "left"), .assign "right_value" (.acceptFget "right"),
+       .assign "value" (.applyOp "ops" "operator" ["right_value", "left_value"]), .ret (.property "value")] cfgK with
+      | some (.ok (v, _)) => some v | _ => none) = some (.int (-2)) := by
+  decide +kernel
+
+/-- the theorems applied: on the concrete configuration the clause of `Spec` and the interpreted source agree on the store
+    (relate … using), and a whole `if` with an elif list and an else clause is the interpreted accept_IfNode -/
+example : noMsg (execStep CK (run CK 0) (.relateUsing "a" "b" "R1" (stripTicks "'x'") "l") cfgK) =
+    noMsg (handlerS CK (relNode "a" "b" "R1" "'x'" "l") accept_RelateUsingNode cfgK) :=
+  (relate_unrelate_as_in_source CK (run CK 0) "a" "b" "R1" "'x'" "l" cfgK).2.2.1
+example : execStep CK (run CK 3) (.ifS (.bool false) [.brk] [(.bool false, [.cont]), (.bool true, [.stop])] (some [.brk])) =
+    handlerS CK (ifNode CK (run CK 3) (.bool false) [.brk] [(.bool false, [.cont]), (.bool true, [.stop])] (some [.brk]))
+      accept_IfNode :=
+  (if_as_in_source CK (run CK 3) (.bool false) [.brk] [(.bool false, [.cont]), (.bool true, [.stop])] (some [.brk])).1
 
 end PyxProps.C04
